@@ -1747,6 +1747,12 @@ GRIupdateRIG(int32 hdf_file_id, ri_info_t *img_ptr)
     /* write out RIG */
     if (img_ptr->rig_ref == DFTAG_WILDCARD)
         img_ptr->rig_ref = Htagnewref(hdf_file_id, DFTAG_RIG);
+    /* A group that is already in the file is replaced.  The new list can be longer than the
+       stored one (a palette added to an image stored earlier), and an element cannot grow
+       in place: release the old element's space, keeping its descriptor */
+    if (Hexist(hdf_file_id, DFTAG_RIG, img_ptr->rig_ref) == SUCCEED)
+        if (HDreuse_tagref(hdf_file_id, DFTAG_RIG, img_ptr->rig_ref) == FAIL)
+            HGOTO_ERROR(DFE_GROUPWRITE, FAIL);
     if (DFdiwrite(hdf_file_id, GroupID, DFTAG_RIG, img_ptr->rig_ref) == FAIL)
         HGOTO_ERROR(DFE_GROUPWRITE, FAIL);
 
